@@ -309,6 +309,9 @@ class ExprGen:
     def substring(self, d):
         r = self.r
         base = self.env.scalar() if r.random() < 0.5 else "%s(%s)" % (self.env.array(), self.iexpr(0))
+        if r.random() < 0.25:
+            # substring of a character literal constant (R609 parent-string may be a scalar-constant)
+            base = self.char_lit()
         lo = self.iexpr(0) if r.random() < 0.7 else ""
         hi = self.iexpr(0) if r.random() < 0.7 else ""
         return "%s(%s:%s)" % (base, lo, hi)
